@@ -22,7 +22,7 @@ func withClosures(f *ssa.Function) []*ssa.Function {
 func ruleC15(w *World, r *Report) {
 	const P = "C15"
 	r.Explanation = "R15.1 pool purity: every value handed to a release function of a pool has the provenance 'allocated from that pool' (directly, or through the meter-cell fields under the meter-type arm of the same kind; for counters the released field path equals the path the allocation was stored to); R15.2 releases in sendDelete are dominated by the success edge of the DELETE write that removes the referencing entries; " +
-		"R15.3 release-on-error closures release only what this call allocated (the !exists guard) and shared maps are updated only after the write succeeded; R15.4 every P4Runtime write reachable from create/update has its error flow to the function's error result (success unreachable unless err == nil), the per-update status filter rejects on the first status that is neither OK nor ALREADY_EXISTS and on an empty status list, SendMsgToUPF maps every error to a rejected cause."
+		"R15.3 release-on-error closures release only what this call allocated (the !exists guard) and shared maps are updated only after the write succeeded; R15.4 every P4Runtime write reachable from create/update has its error flow to the function's error result (success unreachable unless err == nil), the per-update status filter rejects on the first status that is neither OK nor ALREADY_EXISTS and on an empty status list, SendMsgToUPF maps every error to a rejected cause; R15.5 references and pools a live session holds are only given up where the session's entries are deleted: the application-reference release runs only under the DELETE method, and the connection object whose absence makes tryConnect refill all pools (up4.p4client) is only ever assigned a successfully created client."
 	r.NotDecided = "multi-fault sequences as such (the rules are per site and independent of which write fails); that the switch's state matches after partial batches"
 	up := func(n string) *ssa.Function { return w.Fn(P, "pfcpiface.(*UP4)."+n) }
 
@@ -427,6 +427,7 @@ func ruleC15(w *World, r *Report) {
 			}
 		}
 	}
+	ruleC15Ownership(w, r)
 	// SendMsgToUPF: accepted only when no error
 	{
 		f := up("SendMsgToUPF")
@@ -656,4 +657,66 @@ func statusFilterRule(w *World, r *Report, rule string, f *ssa.Function, apply *
 		r.check(guard, rule, fn, "a P4Runtime error without per-update statuses is a failure", w.Pos(apply.Pos()), "len(statuses) == 0 → error", "a P4RuntimeError with an empty status list falls through the filter loop and the failed write is treated as success")
 	}
 	_ = ev
+}
+
+
+// ruleC15Ownership: see R15.5.
+func ruleC15Ownership(w *World, r *Report) {
+	const P = "C15"
+	rem := w.Fn(P, "pfcpiface.(*UP4).removeInternalApplicationIDAndGetP4rtEntry")
+	n := 0
+	for _, e := range w.CG().callersOf(rem) {
+		f := e.Caller
+		fn := w.FuncName(f)
+		if strings.HasPrefix(fn, "test/") {
+			continue
+		}
+		n++
+		root := f
+		for root.Parent() != nil {
+			root = root.Parent()
+		}
+		okD := false
+		if root.Name() == "sendDelete" {
+			okD = true
+		} else if f == root {
+			okD = onlyVia(f, e.Site, func(a, b *ssa.BasicBlock) bool {
+				x, op, y, ok := edgeFact(a, b)
+				if !ok || op != token.EQL {
+					return false
+				}
+				k, isK := constInt(y)
+				p, isP := x.(*ssa.Parameter)
+				return isK && k == 3 && isP && p.Name() == "methodType"
+			})
+		}
+		r.check(okD, "R15.5", fn, "an application reference is given up only where the PDR's entries are deleted", w.Pos(e.Site.Pos()), "under methodType == DELETE", "the application reference of a PDR is released outside the DELETE path (e.g. as roll-back of a failed MODIFY, whose references belong to the live session since its establishment): the application ID goes back to the pool while the live session's entries still match on it")
+	}
+	r.floor("R15.5 application reference releases", n, 1)
+	// up4.p4client
+	k := 0
+	for _, a := range w.accessesOf(map[string]bool{"UP4": true}) {
+		if a.fld.Name() != "p4client" || a.what != "store" {
+			continue
+		}
+		k++
+		st := a.ins.(*ssa.Store)
+		good := false
+		if ex, ok := st.Val.(*ssa.Extract); ok && ex.Index == 0 {
+			if c, ok := ex.Tuple.(*ssa.Call); ok && staticCallee(c) != nil && staticCallee(c).Name() == "CreateChannel" {
+				if ev := errResult(c); ev != nil && errGuarded(a.fn, c, ev, func(i ssa.Instruction) bool { return i == a.ins }) {
+					good = true
+				}
+			}
+		}
+		r.check(good, "R15.5", w.FuncName(a.fn), "up4.p4client is only ever assigned a successfully created client", w.Pos(a.ins.Pos()), "CreateChannel() with err == nil", "up4.p4client is assigned "+symOf(st.Val).String()+": tryConnect takes a nil client (or one without P4Info) for the first connect of the process and re-initialises every ID pool, while the live sessions keep their cells — the same cells are then handed to new sessions")
+	}
+	r.floor("R15.5 stores to up4.p4client", k, 1)
+	// and tryConnect clears exactly under that test or the configured flag
+	tc := w.Fn(P, "pfcpiface.(*UP4).tryConnect")
+	init := w.Fn(P, "pfcpiface.(*UP4).initialize")
+	for _, c := range callsTo(tc, init) {
+		s := symOf(c.Common().Args[1]).String()
+		r.check(strings.Contains(s, "p4client") && strings.Contains(s, "P4Info"), "R15.5", w.FuncName(tc), "state is cleared and pools refilled only for a first connect (no client / no pipeline yet)", w.Pos(c.Pos()), trunc80(s), "initialize is told to clear under "+trunc80(s))
+	}
 }
